@@ -141,14 +141,14 @@ _runner = None
 _table = None
 
 
-def real_constants(iso3, options):
+def real_constants(iso3, options, share=False):
     global _runner, _table
     import pandas as pd
     from src.scenarios.run_model_no_trade import ScenarioRunnerNoTrade
     if _runner is None:
         _runner = ScenarioRunnerNoTrade()
         _table = pd.read_csv("data/no_food_trade/computer_readable_combined.csv")
-    opt = copy.deepcopy(options)
+    opt = options if share else copy.deepcopy(options)
     if iso3 == "WOR":
         return _runner.set_depending_on_option(opt, country_data=None)
     row = _table[_table.iso3 == iso3].iloc[0]
@@ -160,7 +160,7 @@ def run_real(case):
     res = {"inputs": None, "obs": {}, "errs": {}, "crops": None}
     try:
         with quiet(), np.errstate(all="ignore"):
-            c, tci, loader = real_constants(case["iso3"], case["options"])
+            c, tci, loader = real_constants(case["iso3"], case["options"], share=bool(case.get("share_options")))
             for k, f in (case.get("scale") or {}).items():
                 c[k] = c[k] * f
     except BaseException as e:
@@ -215,7 +215,22 @@ def run_real(case):
     return res
 
 
+def run_sequence(case):
+    """several countries in ONE run, as run_model_no_trade does: the same scenario_option object is handed to
+    apply_custom_parameters / set_depending_on_option for every country (no copy in between)"""
+    import runutil
+    shared = runutil.presets()[case["preset"]] if "preset" in case else copy.deepcopy(case["options"])
+    before = copy.deepcopy(shared)
+    out = []
+    for iso in case["isos"]:
+        out.append(run_real({"kind": "real", "iso3": iso, "options": shared, "share_options": True}))
+    return {"inputs": None, "obs": {}, "errs": {}, "sequence": out, "options_before": before, "options_after": copy.deepcopy(shared),
+            "options_unchanged": before == shared}
+
+
 def run_case(case):
+    if case["kind"] == "sequence":
+        return run_sequence(case)
     return run_real(case) if case["kind"] == "real" else run_synthetic(case)
 
 
